@@ -530,7 +530,13 @@ pub async fn flush_all_batches(connections: &mut [SrtlaConnection], conn_io: &Co
             && let Some(io) = conn_io.get(&conn.conn_id)
             && let Err(e) = send_connection_batch(conn, &io.socket).await
         {
-            warn!("{}: periodic batch flush failed: {}", conn.label, e);
+            warn!(
+                "{}: periodic batch flush failed, marking for recovery: {}",
+                conn.label, e
+            );
+            // Same as the threshold and probe flush paths: the batch was
+            // registered in flight by take_batch but never left the socket.
+            conn.mark_for_recovery();
         }
     }
 }
